@@ -109,9 +109,10 @@ def tags(prods):
             if l not in nul and all(x in nul for x in r):
                 nul.add(l)
                 ch = True
-    eps = int(bool(nul))
-    srec = int(any("S" in r for _, r in prods))
-    return "eps=%d,srec=%d" % (eps, srec)
+    eps = int(bool(nul))                                              # some non-terminal derives the empty string
+    nin = int(any(len(r) >= 2 and nul & set(r) for _, r in prods))    # ... and occurs next to another symbol
+    srec = int(any("S" in r for _, r in prods))                       # the start symbol occurs in a right-hand side
+    return "eps=%d,nin=%d,srec=%d" % (eps, nin, srec)
 
 
 SEEDS = [
@@ -171,7 +172,7 @@ def worklist(ctx):
         n = rng.choices((0, 1, 2, 3), weights=(3, 4, 6, 5))[0]
         return (lhs, rng.choice(by_len[n]))
 
-    budget = {2: 6000, 3: 9000, 4: 9000} if thorough else {2: 500, 3: 900, 4: 900}
+    budget = {2: 1000, 3: 3500, 4: 3500} if thorough else {2: 200, 3: 350, 4: 350}
     for n, want in budget.items():
         got = tries = 0
         while got < want and tries < want * 40:
@@ -336,19 +337,62 @@ def export_tables(parser, lrmod):
     return {"action": action, "goto": goto}
 
 
-def _drive_job(args):
-    prods, wordlist = args
-    return drive(prods, wordlist)
+def _worker():
+    """Child process (started with PYTHONHASHSEED=0: EarleyParser iterates over sets of items, so its
+    behaviour may depend on string hashes): grammar keys on stdin, records on stdout."""
+    import json
+    import sys
+    keys = json.load(sys.stdin)
+    wl = words()
+    out = []
+    for k in keys:
+        prods = parse_gkey(k)
+        try:
+            out.append(drive(prods, wl))
+        except Exception as e:       # ppci does not even import / harness-level surprise: observed as a crash
+            nts = [x for x in NONTERMS if any(l == x for l, _ in prods)]
+            out.append({"key": k, "tags": tags(prods), "sr_resolved": False,
+                        "G": {"terms": list(TERMS), "nonterms": nts, "prods": [[l, list(r)] for l, r in prods], "start": "S"},
+                        "first": {"ok": False, "exc": exc_name(e)}, "lr": {"outcome": "crash", "exc": exc_name(e)},
+                        "runs": [{"w": list(w), "lr": {"ok": False, "exc": "no parser", "events": []},
+                                  "earley": {"ok": False, "exc": exc_name(e)}} for w in wl]})
+    json.dump(out, sys.stdout, separators=(",", ":"))
 
 
 def records(ctx, grammars):
-    wl = words()
-    jobs = [(g, wl) for g, _ in grammars]
-    if len(jobs) > 400:
-        import multiprocessing as mp
-        with mp.get_context("fork").Pool(min(12, os.cpu_count() or 1)) as pool:
-            return pool.map(_drive_job, jobs, chunksize=50)
-    return [drive(*j) for j in jobs]
+    import json
+    import subprocess
+    import sys
+    keys = [gkey(g) for g, _ in grammars]
+    n = max(1, min(WORKERS, len(keys) // 40))
+    size = (len(keys) + n - 1) // n
+    env = dict(os.environ)
+    env["PYTHONHASHSEED"] = "0"
+    code = "import sys; sys.path.insert(0, %r); from engines import c32; c32._worker()" % core.VERIF
+    procs = []
+    for lo in range(0, len(keys), size):
+        p = subprocess.Popen([sys.executable, "-c", code], stdin=subprocess.PIPE, stdout=subprocess.PIPE,
+                             stderr=subprocess.PIPE, env=env, cwd=core.VERIF, text=True)
+        procs.append((p, keys[lo:lo + size]))
+    # feed and collect (outputs are large: use threads so that no pipe blocks)
+    import threading
+    results = [None] * len(procs)
+
+    def pump(ix, p, part):
+        out, err = p.communicate(json.dumps(part))
+        results[ix] = (p.returncode, out, err)
+
+    ths = [threading.Thread(target=pump, args=(ix, p, part)) for ix, (p, part) in enumerate(procs)]
+    for t in ths:
+        t.start()
+    for t in ths:
+        t.join()
+    recs = []
+    for rc, out, err in results:
+        if rc != 0:
+            raise core.tlcmod.MachineryError("C32 driver process failed:\n%s" % err[-3000:])
+        recs += json.loads(out)
+    return recs
 
 
 # ---------------------------------------------------------------------------------------------
@@ -406,7 +450,7 @@ class Engine:
 
     # -- M ---------------------------------------------------------------------------------
     def model_check(self, ctx, thorough):
-        configs = [(2, 2, 4), (1, 3, 5), (3, 2, 4), (2, 3, 4)] if thorough else [(2, 2, 3)]
+        configs = [(2, 2, 4), (1, 3, 5), (3, 2, 3), (2, 3, 3)] if thorough else [(2, 2, 3)]
         for mp_, mr, ml in configs:
             res = ctx.tlc("LR_MC", MC_CFG % (mp_, mr, ml), workers=WORKERS, label="laws+machine prods<=%d rhs<=%d len<=%d" % (mp_, mr, ml))
             for e in res.errors:
